@@ -118,9 +118,9 @@ NextItem(i, mode, p) ==
     IN  IF rest = <<>> THEN <<0, 0>> ELSE rest[1]
 
 \* lzma_index_iter_locate(): the non-empty Blocks that contain uncompressed offset t
-Containing(i, t) ==
-    LET bl == Layout(i).bl
-    IN  {k \in 1..Len(bl) : bl[k].usize # Zero /\ Le(bl[k].ufoff, t) /\ Lt(t, Add(bl[k].ufoff, bl[k].usize))}
+ContainingIn(bl, t) ==      \* bl = Layout(i).bl
+    {k \in 1..Len(bl) : bl[k].usize # Zero /\ Le(bl[k].ufoff, t) /\ Lt(t, Add(bl[k].ufoff, bl[k].usize))}
+Containing(i, t) == ContainingIn(Layout(i).bl, t)
 
 \* "within format limits": what every successful operation must preserve
 ValidStream(s) == /\ \A k \in 1..Len(s.recs) : Le(UnpaddedMin, s.recs[k].u) /\ Le(s.recs[k].u, UnpaddedMax) /\ IsVli(s.recs[k].v)
@@ -146,20 +146,21 @@ LocTargetsOf(i, bs) ==
     LET tot == USizeI(i)
         around(x) == {x, AddS(x, 1)} \cup (IF x = Zero THEN {} ELSE {Sub(x, BigOf(1))})
     IN  around(Zero) \cup around(tot) \cup UNION {around(b.ufoff) : b \in bs}
-LocateDecl(i, t) == LET S == Containing(i, t) IN IF S = {} THEN 0 ELSE CHOOSE k \in S : TRUE
+LocateIn(bl, t) == LET S == ContainingIn(bl, t) IN IF S = {} THEN 0 ELSE CHOOSE k \in S : TRUE
+LocateDecl(i, t) == LocateIn(Layout(i).bl, t)
 Observe(i) ==
     LET L == Layout(i)
         bls == SelectSeq(L.bl, LAMBDA b : Sampled(i, L, b))
         num(q) == IF q[2] = 0 THEN 0 ELSE L.st[q[1]].first + q[2] - 1
-        items(mode) == LET it == Items(i, mode) IN [k \in 1..Len(it) |-> <<it[k][1], num(it[k])>>]
-        listing(mode) == IF Small(i) THEN items(mode) ELSE <<>>
+        its == [m \in 1..4 |-> Items(i, m - 1)]
+        listing(mode) == IF Small(i) THEN [k \in 1..Len(its[mode + 1]) |-> <<its[mode + 1][k][1], num(its[mode + 1][k])>>] ELSE <<>>
     IN  [streams |-> Len(i.streams), blocks |-> BlockCount(i), size |-> SizeI(i), total |-> TotalSize(i),
          ssize |-> StreamSizeI(i), fsize |-> FileSize(i), usize |-> USizeI(i), checks |-> Mask(ChecksI(i)),
          mem |-> MemUsage(Len(i.streams), BlockCount(i)),
          st |-> L.st, bl |-> bls, small |-> Small(i),
-         counts |-> [m \in 1..4 |-> Len(Items(i, m - 1))],
+         counts |-> [m \in 1..4 |-> Len(its[m])],
          any |-> listing(ANY), stream |-> listing(STREAM), block |-> listing(BLOCK), nonempty |-> listing(NONEMPTY),
-         loc |-> SetToSeq({<<t, LocateDecl(i, t)>> : t \in LocTargetsOf(i, RangeOf(bls))})]
+         loc |-> SetToSeq({<<t, LocateIn(L.bl, t)>> : t \in LocTargetsOf(i, RangeOf(bls))})]
 
 ----------------------------------------------------------------------------
 (* Part 2: the operations as index.c performs them (list level)              *)
@@ -222,8 +223,12 @@ DoDup(s) == Res("OK", "ok", [streams |-> s.streams, acc |-> IF BugDupChecks THEN
 
 \* lzma_index_buffer_encode() followed by lzma_index_buffer_decode(): all Records in one Stream,
 \* rebuilt with lzma_index_append(); no Stream Flags, no Stream Padding
-DoEncDec(s) == FoldLeft(LAMBDA a, r : IF a.ret # "OK" THEN a ELSE DoAppend(a.idx, r.u, r.v),
-                        Res("OK", "ok", EmptyIndex), AllRecs(s))
+DoEncDecFold(s) == FoldLeft(LAMBDA a, r : IF a.ret # "OK" THEN a ELSE DoAppend(a.idx, r.u, r.v),
+                            Res("OK", "ok", EmptyIndex), AllRecs(s))
+\* the same without the quadratic cost when everything fits (appends only grow the sizes, so the decoder
+\* succeeds iff the final single-Stream index is valid; IndexContract!InvOps checks the equality)
+DoEncDec(s) == LET merged == [streams |-> <<[EmptyStream EXCEPT !.recs = AllRecs(s)]>>, acc |-> {}]
+               IN  IF Valid(merged) THEN Res("OK", "ok", merged) ELSE DoEncDecFold(s)
 \* the encoded Index field without its CRC32
 EncodedBody(i) ==
     LET recs == AllRecs(i)
